@@ -86,4 +86,23 @@ def valN : Nat → Val | 0 => .bool true | n + 1 => .ptr (valN n)
   agrees (one "1" (ptrN 90)) (.struct (mk [valN 90]))
 #guard RTS (one "1" (ptrN 400)) (.struct (mk [valN 400])) && agrees (one "1" (ptrN 400)) (.struct (mk [valN 400]))
 
+/-! ### the depth hypothesis `d + nest ty ≤ maxDepth` of `decode_norm` is needed (and sharp)
+Since the fix 9c8d6b4 the decoder refuses to enter a list / set / map / struct at depth ≥ maxDepth; the encoder has no
+limit. Pointers and named types do not count. -/
+def decAt (d : Nat) (ty : Ty) (v : Val) : String :=
+  match decode .compact true d 64 ty (encode .compact ty v) (zeroOf ty) with
+  | .ok (w, _) => "ok:" ++ w.show
+  | .err e => "err:" ++ e
+  | .panic e => "panic:" ++ e
+def ll : Ty := .slice (.slice .bool)
+def llV : Val := .list (mk [.list (mk [.bool true])])
+#guard nest ll == 2 && RTS ll llV
+#guard decAt (Gen.c_thrift_maxDepth - 2) ll llV == "ok:" ++ (norm ll llV).show
+#guard decAt (Gen.c_thrift_maxDepth - 1) ll llV == "err:maxDepth"
+#guard decAt Gen.c_thrift_maxDepth (one "1" .bool) (.struct (mk [.bool true])) == "err:maxDepth"
+#guard decAt (Gen.c_thrift_maxDepth - 1) (one "1" (.ptr (.named "B" .bool))) (.struct (mk [.ptr (.bool true)])) ==
+  "ok:" ++ (norm (one "1" (.ptr (.named "B" .bool))) (.struct (mk [.ptr (.bool true)]))).show
+-- a `[]byte` is a binary, not a list: it does not count
+#guard nest (.slice (.int .u8)) == 0 && decAt Gen.c_thrift_maxDepth (.slice (.int .u8)) (.str [1, 2]) == "ok:s 0102"
+
 end Enc.Lemmas.ThriftRoundTrip.Findings
